@@ -288,10 +288,12 @@ def float_repr(text):
             raise Unsupported("repr of a float with more than 15 significant digits")
         return scientific(digits, len(ip) - 1)
     if len(ip) + len(fp) > 15 or len(ip) > 15:
-        # many digits, but perhaps only few significant ones (1000000000000000.0)
-        digits = ip + ([] if frac_zero else fp)
+        # many digits, but perhaps only few significant ones (1000000000000000.0, 0.0000000000000015)
+        digits = ([] if int_zero else ip) + ([] if frac_zero else fp)
         while len(digits) > 1 and ctx.decide_b(ch_eq(digits[-1], "0")):
             digits.pop()
+        while int_zero and len(digits) > 1 and ctx.decide_b(ch_eq(digits[0], "0")):
+            digits.pop(0)
         if len(digits) > 15:
             raise Unsupported("repr of a float with more than 15 significant digits")
     if int_zero and not frac_zero:
